@@ -16,6 +16,18 @@ static std::string attrLine(const DOMAttr* a, const DomDumpOpts& o) {
     return s;
 }
 
+static void lookups(const char* who, const DOMNode* n, Dump& d, const DomDumpOpts& o) {
+    for (size_t i = 0; i < o.lkPrefixes.size(); i++) {
+        const xstr& p = o.lkPrefixes[i];
+        d.ev(std::string("LK\t") + who + "\tns\t" + escx(p) + "\t" + esc(n->lookupNamespaceURI(p.empty() ? 0 : p.c_str())));
+    }
+    for (size_t i = 0; i < o.lkUris.size(); i++) {
+        const xstr& u = o.lkUris[i];
+        d.ev(std::string("LK\t") + who + "\tpfx\t" + escx(u) + "\t" + esc(n->lookupPrefix(u.empty() ? 0 : u.c_str())));
+        d.ev(std::string("LK\t") + who + "\tdef\t" + escx(u) + "\t" + (n->isDefaultNamespace(u.empty() ? 0 : u.c_str()) ? "1" : "0"));
+    }
+}
+
 static void startNode(const DOMNode* n, Dump& d, const DomDumpOpts& o) {
     switch (n->getNodeType()) {
         case DOMNode::ELEMENT_NODE: {
@@ -32,6 +44,16 @@ static void startNode(const DOMNode* n, Dump& d, const DomDumpOpts& o) {
             std::sort(al.begin(), al.end());
             for (size_t i = 0; i < al.size(); i++) d.ev(al[i].second);
             d.ev("SEX");
+            if (o.lookups) {
+                static unsigned long nth = 0;
+                lookups("el", n, d, o);
+                // attribute / child nodes delegate to the element: sample every third element to bound the log size
+                if (++nth % 3 == 0) {
+                    if (m && m->getLength()) lookups("at", m->item(0), d, o);
+                    const DOMNode* fc = n->getFirstChild();
+                    if (fc && fc->getNodeType() != DOMNode::ELEMENT_NODE) lookups("ch", fc, d, o);
+                }
+            }
             break;
         }
         case DOMNode::TEXT_NODE: {
